@@ -683,6 +683,495 @@ def translate_loop_kernel(module, name, ret, ptext, body, consts):
             'consts': sorted(cx.used_consts)}
 
 
+# ----------------------------------------------------------------------------------------------------------- imperative fragment
+
+IMP_FROM = re.compile(r'^(\s*)for\s+(\w+)\s+from\s+0\s*<=\s*\2\s*<\s*([\w.\[\]]+)\s*:\s*$')
+NAT_TYPES = {'Py_ssize_t', 'int', 'long', 'LONG'}
+FLT_TYPES = {'DTYPE_t', 'double'}
+
+
+def translate_imp(module, name, ret, ptext, body, consts, known, imp_known):
+    """Array kernels with nested loops, as a Lean `Id.run do` block over `Array α` (near one-to-one with the source text).
+
+    parameters: `DTYPE_t* p` and memory views `DTYPE_t[::1]`, `DTYPE_t[:,::1]`, `DTYPE_t[:,:,::1]` become flat (C-contiguous) `Array α`; a memory view brings
+    one `Nat` parameter per dimension (`<name>_s<i>`, what `.shape[i]` reads); `Py_ssize_t` / `int` are `Nat`; `DTYPE_t` is `α`.
+    statements: typed declarations, assignments and `+= -= *= /=` to scalars and to array cells (`p[e]`, `a[i,j,k]` → row-major offset), `if`, `for i from 0<=i<n`,
+    `for i in range(n)` / `range(a,b)`, `break`, `continue`, `return`, statement calls of translated array kernels (`&a[0,0,0]` passes the array).
+    reads outside an array give 0 and writes outside are dropped (C: undefined); integer subtraction is truncated at 0 (documented; the translated
+    functions only compute `n-1` for positive n); a comparison used as an integer is 0/1.
+    result: the tuple of the arrays the function writes (parameter order), followed by the scalar return value if there is one."""
+    parts, depth, cur = [], 0, ''
+    for ch in ptext:
+        depth += ch in '[('
+        depth -= ch in '])'
+        if ch == ',' and depth == 0:
+            parts.append(cur)
+            cur = ''
+        else:
+            cur += ch
+    if cur.strip():
+        parts.append(cur)
+    params = []          # (name, kind) kind: arr | mv2 | mv3 | nat | flt
+    for p in parts:
+        p = p.strip()
+        if '=' in p:
+            p = p.split('=')[0].strip()          # a default value: the model takes the argument explicitly
+        m = re.fullmatch(r'([A-Za-z_]\w*)\s*(\*?)\s*(\[[:,1 ]*\])?\s*(\*?)\s*([A-Za-z_]\w*)', p)
+        if not m:
+            raise Unsupported('parameter %r' % p)
+        typ, s1, mv, s2, nm = m.groups()
+        if typ in FLT_TYPES and mv:
+            nd = mv.count(',') + 1
+            params.append((nm, 'arr' if nd == 1 else 'mv%d' % nd))
+            if nd > 3:
+                raise Unsupported('memory view of %d dimensions' % nd)
+        elif typ in FLT_TYPES and (s1 or s2):
+            params.append((nm, 'arr'))
+        elif typ in FLT_TYPES:
+            params.append((nm, 'flt'))
+        elif typ in NAT_TYPES and not (s1 or s2 or mv):
+            params.append((nm, 'nat'))
+        else:
+            raise Unsupported('parameter type %s' % p)
+    if not any(k in ('arr', 'mv2', 'mv3') for _n, k in params):
+        raise Unsupported('no array parameter')
+    kinds = dict(params)
+    mv1_local = set()
+    alias = {}
+    locarr = []          # (name, ndim, [dim source]) local arrays allocated with np.empty / np.zeros (modelled as zero-filled)
+    decl = []            # (name, kind, init-source or None) in order
+    lines = []
+    for l in body:
+        ind = l[:len(l) - len(l.lstrip())]
+        s = l.strip().rstrip(';')
+        m = IMP_FROM.match(l)
+        if m:
+            lines.append('%sfor %s in range(%s):' % (m.group(1), m.group(2), m.group(3)))
+            decl.append((m.group(2), 'loopfrom', None))
+            continue
+        m = re.match(r'^cdef\s+(?:DTYPE_t|double)\s*\[[:,1 ]*\]\s*(\w+)\s*=\s*(\w+)$', s)
+        if m:
+            alias[m.group(1)] = m.group(2)
+            continue
+        m = re.match(r'^cdef\s+(?:DTYPE_t|double)\s*\[([:,1 ]*)\]\s*(\w+)\s*=\s*np\.(empty|zeros)\(\s*\(?([^()]*?),?\s*\)?\s*\)$', s)
+        if m:
+            nd = m.group(1).count(',') + 1
+            dims = [d.strip() for d in m.group(4).split(',') if d.strip()]
+            if len(dims) != nd or nd > 3:
+                raise Unsupported('allocation %r' % s)
+            locarr.append((m.group(2), nd, dims))
+            lines.append(ind + '__alloc__(%s)' % m.group(2))
+            continue
+        m = re.match(r'^cdef\s+(DTYPE_t|double|Py_ssize_t|int|long|LONG)\s+(.*)$', s)
+        if m:
+            kind = 'flt' if m.group(1) in FLT_TYPES else 'nat'
+            rest = m.group(2)
+            if '=' in rest:
+                nm = rest.split('=')[0].strip()
+                if not re.fullmatch(r'\w+', nm):
+                    raise Unsupported('declaration %r' % s)
+                decl.append((nm, kind, None))
+                lines.append(ind + rest)
+            else:
+                for nm in rest.split(','):
+                    decl.append((nm.strip(), kind, None))
+            continue
+        if s.startswith('cdef '):
+            raise Unsupported('declaration %r' % s)
+        s = re.sub(r'&\s*(\w+)\s*\[\s*0+(\s*,\s*0+)*\s*\]', r'\1', s)
+        if '&' in s:
+            raise Unsupported('address of an array cell')
+        lines.append(ind + s)
+    try:
+        tree = ast.parse(textwrap.dedent('\n'.join(lines)))
+    except SyntaxError as e:
+        raise Unsupported('syntax: %s' % e.msg)
+    # docstrings and `assert` (shape agreement, assumed) carry no computation
+    tree.body = [st for st in tree.body if not (isinstance(st, ast.Expr) and isinstance(st.value, ast.Constant) and isinstance(st.value.value, str))
+                 and not isinstance(st, ast.Assert)]
+    for nm_, nd_, _dims in locarr:
+        kinds[nm_] = 'arr' if nd_ == 1 else 'mv%d' % nd_
+        if nd_ == 1:
+            mv1_local.add(nm_)
+
+    def res(nm):
+        seen = set()
+        while nm in alias and nm not in seen:
+            seen.add(nm)
+            nm = alias[nm]
+        return nm
+    local = {}
+    for nm, kind, _i in decl:
+        if nm in kinds:
+            continue
+        local[nm] = 'nat' if kind == 'loopfrom' else kind
+    for node in ast.walk(tree):
+        if isinstance(node, ast.For) and isinstance(node.target, ast.Name):
+            local.setdefault(node.target.id, 'nat')
+    from_vars = {nm for nm, kind, _i in decl if kind == 'loopfrom'}
+
+    def kind_of(nm):
+        nm = res(nm)
+        return kinds.get(nm) or local.get(nm)
+    # old-style loop variables must not be read outside their loop (C leaves the bound there, the model does not)
+    def check_reads(stmts, bound):
+        for st in stmts:
+            if isinstance(st, ast.For):
+                for x in ast.walk(st.iter):
+                    if isinstance(x, ast.Name) and x.id in from_vars and x.id not in bound:
+                        raise Unsupported('old-style loop variable %s read outside its loop' % x.id)
+                check_reads(st.body, bound | {st.target.id})
+            elif isinstance(st, ast.If):
+                for x in ast.walk(st.test):
+                    if isinstance(x, ast.Name) and x.id in from_vars and x.id not in bound:
+                        raise Unsupported('old-style loop variable %s read outside its loop' % x.id)
+                check_reads(st.body, bound)
+                check_reads(st.orelse, bound)
+            else:
+                for x in ast.walk(st):
+                    if isinstance(x, ast.Name) and x.id in from_vars and x.id not in bound:
+                        raise Unsupported('old-style loop variable %s read outside its loop' % x.id)
+    check_reads(tree.body, set())
+    cx = Ctx(module, consts, known)
+
+    def ln(nm):
+        return lean_name(res(nm))
+
+    def is_nat(n):
+        if isinstance(n, ast.Constant):
+            return isinstance(n.value, int) and not isinstance(n.value, bool)
+        if isinstance(n, ast.Name):
+            return kind_of(n.id) == 'nat'
+        if isinstance(n, ast.Attribute) or (isinstance(n, ast.Subscript) and isinstance(n.value, ast.Attribute)):
+            return True
+        if isinstance(n, ast.BinOp) and isinstance(n.op, (ast.Add, ast.Sub, ast.Mult)):
+            return is_nat(n.left) and is_nat(n.right)
+        if isinstance(n, ast.Compare):
+            return True
+        return False
+
+    def nexpr(n):
+        if isinstance(n, ast.Constant) and isinstance(n.value, int) and not isinstance(n.value, bool) and n.value >= 0:
+            return '%d' % n.value
+        if isinstance(n, ast.Name) and kind_of(n.id) == 'nat':
+            return ln(n.id)
+        if isinstance(n, ast.Subscript) and isinstance(n.value, ast.Attribute) and n.value.attr == 'shape' and isinstance(n.value.value, ast.Name) and is_int_lit(n.slice):
+            a = res(n.value.value.id)
+            k = kinds.get(a)
+            nd = {'arr': 1, 'mv2': 2, 'mv3': 3}.get(k)
+            if nd is None or n.slice.value >= nd:
+                raise Unsupported('shape of %s' % a)
+            if k == 'arr' and not mv1.get(a):
+                raise Unsupported('shape of a pointer')
+            return '%s_s%d' % (a, n.slice.value)
+        if isinstance(n, ast.BinOp) and isinstance(n.op, (ast.Add, ast.Sub, ast.Mult)):
+            op = {ast.Add: '+', ast.Sub: '-', ast.Mult: '*'}[type(n.op)]
+            return '(%s %s %s)' % (nexpr(n.left), op, nexpr(n.right))
+        if isinstance(n, ast.Compare):
+            return '(%s).toNat' % bexpr(n)
+        raise Unsupported('integer expression %s' % ast.dump(n)[:60])
+
+    def index(n):
+        """flat offset of a subscript on an array"""
+        a = res(n.value.id)
+        k = kinds.get(a)
+        sl = n.slice
+        if isinstance(sl, ast.Tuple):
+            idx = sl.elts
+        else:
+            idx = [sl]
+        nd = {'arr': 1, 'mv2': 2, 'mv3': 3}.get(k)
+        if nd is None:
+            raise Unsupported('subscript of %s' % a)
+        if len(idx) != nd:
+            raise Unsupported('%d indices on %s' % (len(idx), a))
+        t = nexpr(idx[0])
+        for d in range(1, nd):
+            t = '(%s * %s_s%d + %s)' % (t, a, d, nexpr(idx[d]))
+        return lean_name(a), t
+
+    def fexpr(n):
+        if isinstance(n, ast.Constant):
+            if isinstance(n.value, bool):
+                raise Unsupported('boolean constant')
+            if isinstance(n.value, int):
+                return '(c %d)' % n.value if n.value >= 0 else '(-(c %d))' % (-n.value)
+            if isinstance(n.value, float):
+                return lit(repr(n.value))
+        if isinstance(n, ast.Name):
+            k = kind_of(n.id)
+            if k == 'flt':
+                return ln(n.id)
+            if k == 'nat':
+                return '(Flt.ofNat %s)' % ln(n.id)
+            if n.id in BUILTIN_CONST:
+                return BUILTIN_CONST[n.id]
+            if n.id in cx.consts:
+                cx.used_consts.add(n.id)
+                return 'k_' + n.id
+            raise Unsupported('name %s' % n.id)
+        if isinstance(n, ast.Subscript) and isinstance(n.value, ast.Name):
+            a, t = index(n)
+            return '(%s.getD %s (c 0))' % (a, t)
+        if isinstance(n, ast.UnaryOp) and isinstance(n.op, ast.USub):
+            return '(-%s)' % fexpr(n.operand)
+        if isinstance(n, ast.UnaryOp) and isinstance(n.op, ast.UAdd):
+            return fexpr(n.operand)
+        if isinstance(n, ast.BinOp):
+            if isinstance(n.op, ast.Pow):
+                if is_int_lit(n.right) and n.right.value == 2:
+                    a = fexpr(n.left)
+                    return '(%s * %s)' % (a, a)
+                raise Unsupported('power')
+            ops = {ast.Add: '+', ast.Sub: '-', ast.Mult: '*', ast.Div: '/'}
+            if type(n.op) not in ops:
+                raise Unsupported('operator')
+            if isinstance(n.op, ast.Div) and is_nat(n.left) and is_nat(n.right):
+                raise Unsupported('integer division')
+            return '(%s %s %s)' % (fexpr(n.left), ops[type(n.op)], fexpr(n.right))
+        if isinstance(n, ast.Call) and isinstance(n.func, ast.Name) and not n.keywords:
+            f = n.func.id
+            args = [fexpr(a) for a in n.args]
+            if f in MATH1 and len(args) == 1:
+                return '(%s %s)' % (MATH1[f], args[0])
+            if f in ('fmin', 'fmax') and len(args) == 2:
+                return '(%s %s %s)' % (f, args[0], args[1])
+            if f == 'atan2' and len(args) == 2:
+                return '(Flt.atan2 %s %s)' % tuple(args)
+            if f in cx.known:
+                kp, _outs, kret = cx.known[f]
+                if kret == 'void' or any(k != 'scalar' for _n, k in kp) or len(args) != len(kp):
+                    raise Unsupported('call of %s' % f)
+                cx.calls.add(f)
+                return '(%s %s)' % (lean_name(f), ' '.join(args))
+            raise Unsupported('call of %s' % f)
+        raise Unsupported('expression %s' % type(n).__name__)
+
+    def bexpr(n):
+        if isinstance(n, ast.BoolOp):
+            op = ' && ' if isinstance(n.op, ast.And) else ' || '
+            return '(' + op.join(bexpr(v) for v in n.values) + ')'
+        if isinstance(n, ast.UnaryOp) and isinstance(n.op, ast.Not):
+            return '(!%s)' % bexpr(n.operand)
+        if isinstance(n, ast.Compare) and len(n.ops) == 1:
+            l, r, op = n.left, n.comparators[0], n.ops[0]
+            if is_nat(l) and is_nat(r):
+                a, b = nexpr(l), nexpr(r)
+                return {ast.Lt: '(decide (%s < %s))', ast.Gt: '(decide (%s > %s))', ast.LtE: '(decide (%s ≤ %s))', ast.GtE: '(decide (%s ≥ %s))',
+                        ast.Eq: '(%s == %s)', ast.NotEq: '(%s != %s)'}[type(op)] % (a, b)
+            a, b = fexpr(l), fexpr(r)
+            if isinstance(op, ast.Lt):
+                return '(Flt.ltb %s %s)' % (a, b)
+            if isinstance(op, ast.Gt):
+                return '(Flt.ltb %s %s)' % (b, a)
+            if isinstance(op, ast.LtE):
+                return '(Flt.leb %s %s)' % (a, b)
+            if isinstance(op, ast.GtE):
+                return '(Flt.leb %s %s)' % (b, a)
+            if isinstance(op, ast.Eq):
+                return '(Flt.eqb %s %s)' % (a, b)
+            if isinstance(op, ast.NotEq):
+                return '(!(Flt.eqb %s %s))' % (a, b)
+        raise Unsupported('condition')
+    mv1 = {nm: True for p, (nm, k) in zip(parts, params) if k == 'arr' and '[' in p}
+    for nm_ in mv1_local:
+        mv1[nm_] = True
+    # arrays written
+    written = []
+
+    def note(a):
+        a = res(a)
+        if kinds.get(a) not in ('arr', 'mv2', 'mv3'):
+            raise Unsupported('write to %s' % a)
+        if a not in written:
+            written.append(a)
+    for node in ast.walk(tree):
+        tg = None
+        if isinstance(node, ast.Assign) and len(node.targets) == 1:
+            tg = node.targets[0]
+        elif isinstance(node, ast.AugAssign):
+            tg = node.target
+        if isinstance(tg, ast.Subscript) and isinstance(tg.value, ast.Name):
+            note(tg.value.id)
+        if isinstance(node, ast.Expr) and isinstance(node.value, ast.Call) and isinstance(node.value.func, ast.Name):
+            f = node.value.func.id
+            if f == '__alloc__':
+                continue
+            if f not in imp_known:
+                raise Unsupported('call of %s' % f)
+            cp, cw, _cr = imp_known[f]
+            for (pn, pk), a in zip(cp, node.value.args):
+                if pn in cw:
+                    if not isinstance(a, ast.Name):
+                        raise Unsupported('array argument expression')
+                    note(a.id)
+    written = [nm for nm, _k in params if nm in written]
+    localnames = [nm_ for nm_, _nd, _d in locarr]
+    ret_kind = None
+    rt = ret.split('[')[0].strip()
+    if '[' not in ret and rt in FLT_TYPES:
+        ret_kind = 'flt'
+    elif '[' not in ret and rt in NAT_TYPES:
+        ret_kind = 'nat'
+    elif ret != 'void' and '[' not in ret and ret != 'object':
+        raise Unsupported('return type %s' % ret)
+    explicit = [None]     # arrays named by `return np.asarray(X)[, np.asarray(Y)…]` (the result of a Python-level function)
+
+    def returned_arrays(v):
+        els = v.elts if isinstance(v, ast.Tuple) else [v]
+        names = []
+        for e in els:
+            if isinstance(e, ast.Call) and isinstance(e.func, ast.Attribute) and e.func.attr in ('asarray', 'ascontiguousarray') and len(e.args) == 1 and isinstance(e.args[0], ast.Name):
+                e = e.args[0]
+            if isinstance(e, ast.Name) and kinds.get(res(e.id)) in ('arr', 'mv2', 'mv3'):
+                names.append(res(e.id))
+            else:
+                return None
+        return names
+    if ret == 'object' or '[' in ret:
+        rets = [returned_arrays(n.value) for n in ast.walk(tree) if isinstance(n, ast.Return) and n.value is not None]
+        if ret == 'object' and (not rets or any(r is None for r in rets) or any(r != rets[0] for r in rets)):
+            raise Unsupported('Python-object function')
+        if rets and all(r is not None and r == rets[0] for r in rets):
+            explicit[0] = rets[0]
+    out = []
+
+    def result(extra=None):
+        vals = [lean_name(a) for a in (explicit[0] if explicit[0] is not None else written)] + ([extra] if extra is not None else [])
+        if not vals:
+            raise Unsupported('no result')
+        return '(' + ', '.join(vals) + ')' if len(vals) > 1 else vals[0]
+
+    def stmts(sts, pad):
+        for st in sts:
+            if isinstance(st, (ast.Assign, ast.AugAssign)):
+                tg = st.targets[0] if isinstance(st, ast.Assign) else st.target
+                if isinstance(st, ast.Assign) and len(st.targets) != 1:
+                    raise Unsupported('multiple assignment')
+                if isinstance(tg, ast.Name):
+                    k = kind_of(tg.id)
+                    if k not in ('flt', 'nat') or res(tg.id) in kinds:
+                        raise Unsupported('assignment to %s' % tg.id)
+                    ex = nexpr if k == 'nat' else fexpr
+                    if isinstance(st, ast.Assign):
+                        v = ex(st.value)
+                    else:
+                        ops = {ast.Add: '+', ast.Sub: '-', ast.Mult: '*', ast.Div: '/'}
+                        if type(st.op) not in ops or (k == 'nat' and isinstance(st.op, ast.Div)):
+                            raise Unsupported('augmented operator')
+                        v = '(%s %s %s)' % (ln(tg.id), ops[type(st.op)], ex(st.value))
+                    out.append('%s%s := %s' % (pad, ln(tg.id), v))
+                elif isinstance(tg, ast.Subscript) and isinstance(tg.value, ast.Name):
+                    a, t = index(tg)
+                    if isinstance(st, ast.Assign):
+                        v = fexpr(st.value)
+                    else:
+                        ops = {ast.Add: '+', ast.Sub: '-', ast.Mult: '*', ast.Div: '/'}
+                        if type(st.op) not in ops:
+                            raise Unsupported('augmented operator')
+                        v = '((%s.getD %s (c 0)) %s %s)' % (a, t, ops[type(st.op)], fexpr(st.value))
+                    out.append('%s%s := %s.setIfInBounds %s %s' % (pad, a, a, t, v))
+                else:
+                    raise Unsupported('assignment target')
+            elif isinstance(st, ast.If):
+                out.append('%sif %s then' % (pad, bexpr(st.test)))
+                if not st.body:
+                    raise Unsupported('empty branch')
+                stmts(st.body, pad + '  ')
+                if st.orelse:
+                    out.append('%selse' % pad)
+                    stmts(st.orelse, pad + '  ')
+            elif isinstance(st, ast.For):
+                if not (isinstance(st.iter, ast.Call) and isinstance(st.iter.func, ast.Name) and st.iter.func.id == 'range' and 1 <= len(st.iter.args) <= 2
+                        and isinstance(st.target, ast.Name)) or st.orelse:
+                    raise Unsupported('loop form')
+                lo = nexpr(st.iter.args[0]) if len(st.iter.args) == 2 else '0'
+                hi = nexpr(st.iter.args[-1])
+                v = ln(st.target.id)
+                out.append('%sfor %s_it in [%s:%s] do' % (pad, v, lo, hi))
+                out.append('%s  %s := %s_it' % (pad, v, v))
+                stmts(st.body, pad + '  ')
+            elif isinstance(st, ast.Break):
+                out.append('%sbreak' % pad)
+            elif isinstance(st, ast.Continue):
+                out.append('%scontinue' % pad)
+            elif isinstance(st, ast.Return):
+                if st.value is None or (isinstance(st.value, ast.Name) and res(st.value.id) in written) or (explicit[0] is not None and returned_arrays(st.value) == explicit[0]):
+                    out.append('%sreturn %s' % (pad, result()))
+                elif ret_kind:
+                    out.append('%sreturn %s' % (pad, result((nexpr if ret_kind == 'nat' else fexpr)(st.value))))
+                else:
+                    raise Unsupported('return value')
+            elif isinstance(st, ast.Expr) and isinstance(st.value, ast.Call) and isinstance(st.value.func, ast.Name) and st.value.func.id == '__alloc__':
+                nm_ = st.value.args[0].id
+                nd_, dims = [(n2, d2) for n1, n2, d2 in locarr if n1 == nm_][0]
+                for d, src in enumerate(dims):
+                    out.append('%s%s_s%d := %s' % (pad, nm_, d, nexpr(ast.parse(src, mode='eval').body)))
+                out.append('%s%s := Array.replicate (%s) (c 0)' % (pad, lean_name(nm_), ' * '.join('%s_s%d' % (nm_, d) for d in range(nd_))))
+            elif isinstance(st, ast.Expr) and isinstance(st.value, ast.Call) and isinstance(st.value.func, ast.Name):
+                f = st.value.func.id
+                cp, cw, cr = imp_known[f]
+                if cr is not None or len(st.value.args) != len(cp):
+                    raise Unsupported('statement call of %s' % f)
+                args = []
+                for (pn, pk), a in zip(cp, st.value.args):
+                    if pk in ('arr', 'mv1', 'mv2', 'mv3'):
+                        if not isinstance(a, ast.Name) or kinds.get(res(a.id)) not in ('arr', 'mv2', 'mv3'):
+                            raise Unsupported('array argument')
+                        args.append(ln(a.id))
+                        if pk != 'arr':
+                            ck = kinds.get(res(a.id))
+                            ck = 'mv1' if (ck == 'arr' and mv1.get(res(a.id))) else ck
+                            if ck != pk:
+                                raise Unsupported('memory view passed with another rank')
+                            args += ['%s_s%d' % (res(a.id), d) for d in range(int(pk[2]))]
+                    elif pk == 'nat':
+                        args.append(nexpr(a))
+                    else:
+                        args.append(fexpr(a))
+                cx.calls.add(f)
+                tgt = [ln(a.id) for (pn, pk), a in zip(cp, st.value.args) if pn in cw]
+                call = '%s %s' % (lean_name(f), ' '.join(args))
+                if len(tgt) == 1:
+                    out.append('%s%s := %s' % (pad, tgt[0], call))
+                else:
+                    out.append('%slet r_ := %s' % (pad, call))
+                    for i, t in enumerate(tgt):
+                        out.append('%s%s := %s' % (pad, t, proj('r_', i, len(tgt))))
+            elif isinstance(st, ast.Pass):
+                pass
+            else:
+                raise Unsupported('statement %s' % type(st).__name__)
+    head = []
+    for a in written:
+        head.append('  let mut %s := %s' % (lean_name(a), lean_name(a)))
+    for nm_, nd_, _dims in locarr:
+        head.append('  let mut %s : Array α := #[]' % lean_name(nm_))
+        for d in range(nd_):
+            head.append('  let mut %s_s%d : Nat := 0' % (nm_, d))
+    for nm, k in local.items():
+        head.append('  let mut %s : %s := %s' % (lean_name(nm), 'Nat' if k == 'nat' else 'α', '0' if k == 'nat' else '(c 0)'))
+    stmts(tree.body, '  ')
+    last = tree.body[-1] if tree.body else None
+    if not isinstance(last, ast.Return):
+        if ret_kind:
+            raise Unsupported('control reaches the end of a non-void function')
+        out.append('  return %s' % result())
+    sig = []
+    for nm, k in params:
+        if k in ('arr', 'mv2', 'mv3'):
+            sig.append('(%s : Array α)' % lean_name(nm))
+            if k != 'arr' or mv1.get(nm):
+                sig += ['(%s_s%d : Nat)' % (nm, d) for d in range({'arr': 1, 'mv2': 2, 'mv3': 3}[k])]
+        else:
+            sig.append('(%s : %s)' % (lean_name(nm), 'Nat' if k == 'nat' else 'α'))
+    outs = explicit[0] if explicit[0] is not None else written
+    rtypes = ['Array α'] * len(outs) + ([{'flt': 'α', 'nat': 'Nat'}[ret_kind]] if ret_kind else [])
+    text = 'def %s %s : %s := Id.run do\n%s\n' % (lean_name(name), ' '.join(sig), ' × '.join(rtypes), '\n'.join(head + out))
+    pk = [(nm, 'arr' if (k == 'arr' and not mv1.get(nm)) else ('mv1' if k == 'arr' else k)) for nm, k in params]
+    return {'name': name, 'lean': text, 'params': pk, 'written': written, 'outs': outs, 'ret_kind': ret_kind, 'consts': sorted(cx.used_consts), 'calls': sorted(cx.calls)}
+
+
 def const_term(node, consts, seen=()):
     cx = Ctx('', {k: v for k, v in consts.items() if k not in seen}, {})
     return expr(node, {}, cx), cx.used_consts
@@ -700,6 +1189,7 @@ def generate():
         funcs = functions(path)
         known, done, skipped = {}, [], {}
         loops, loops_done = [], set()
+        imps, imp_known = [], {}
         pending = list(funcs)
         progress = True
         while pending and progress:
@@ -719,7 +1209,23 @@ def generate():
                             continue
                         except Unsupported as e2:
                             msg = 'loop: %s' % e2
-                    if msg.startswith('call of ') and msg.split()[-1] in {f[0] for f in pending}:
+                    base = msg
+                    if name not in loops_done:
+                        try:
+                            it = translate_imp(mod, name, ret, ptext, body, consts, known, imp_known)
+                            imps.append(it)
+                            imp_known[name] = (it['params'], it['written'], it['ret_kind'])
+                            loops_done.add(name)
+                            skipped.pop(name, None)
+                            progress = True
+                            continue
+                        except Unsupported as e3:
+                            msg = '%s; as an array kernel: %s' % (msg, e3)
+                            if str(e3).startswith('call of ') and str(e3).split()[-1] in {f[0] for f in pending}:
+                                nxt.append((name, ret, ptext, body))
+                                skipped[name] = msg
+                                continue
+                    if base.startswith('call of ') and base.split()[-1] in {f[0] for f in pending}:
                         nxt.append((name, ret, ptext, body))          # callee may be translated later
                         skipped[name] = msg
                     else:
@@ -732,7 +1238,7 @@ def generate():
             pending = nxt
         # constants used
         cdefs, need = [], []
-        for t in done + loops:
+        for t in done + loops + imps:
             for k in t['consts']:
                 if k not in need:
                     need.append(k)
@@ -765,8 +1271,11 @@ def generate():
                     break
             else:
                 break
-        modules.append((mod, rel, ordered, done, loops))
-        report['translated'][mod] = [t['name'] for t in done] + [t['name'] for t in loops]
+        modules.append((mod, rel, ordered, done, loops, imps))
+        report['translated'][mod] = [t['name'] for t in done] + [t['name'] for t in loops] + [t['name'] for t in imps]
+        report.setdefault('array_kernels', {})[mod] = [t['name'] for t in imps]
+        for t in imps:
+            report.setdefault('array_kernel_params', {})['%s.%s' % (mod, t['name'])] = {'params': t['params'], 'outs': t['outs'], 'ret': t['ret_kind']}
         report['skipped'][mod] = skipped
     return modules, report
 
@@ -792,11 +1301,12 @@ def cfmod (a b : α) : α := a - b * ctrunc (a / b)
 def render(modules):
     src_lines = '\n'.join('  %s' % m[1] for m in modules)
     out = [HEADER % src_lines]
-    ops = ['import MTfitVerif.Model.PyxKernels\nimport MTfitVerif.Driver.Proto\n/- GENERATED by harness/gen_pyx.py — evaluation table of the translated kernels -/\n'
+    ops = ['import MTfitVerif.Model.PyxKernels\nimport MTfitVerif.Driver.Proto\n/- GENERATED by harness/gen_pyx.py — evaluation table of the translated kernels -/\nset_option linter.unusedVariables false\n'
            'namespace MTfitVerif.Driver\nopen MTfitVerif Proto\n\ndef pyxTable : List (String × (Nat × (List Float → List Float))) := [']
     rows = []
     lrows = []
-    for mod, rel, consts, done, loops in modules:
+    irows = []
+    for mod, rel, consts, done, loops, imps in modules:
         out.append('\nnamespace %s\n' % mod)
         for k, term, _u in consts:
             out.append('def k_%s : α := %s\n' % (k, term))
@@ -847,11 +1357,41 @@ def render(modules):
                 pj = proj('r', j, nres)
                 parts.append(pj if j < len(t['written']) else '[%s]' % pj)
             lrows.append('  ("%s.%s", fun arrs sc n => let r := %s %s; %s)' % (mod, t['name'], fn, ' '.join(call), ' ++ '.join(parts)))
+        for t in imps:
+            out.append(t['lean'])
+            fn = 'Pyx.%s.%s' % (mod, lean_name(t['name']))
+            call, ai, si, ni = [], 0, 0, 0
+            for nm, k in t['params']:
+                if k in ('arr', 'mv1', 'mv2', 'mv3'):
+                    call.append('(arrs.getD %d #[])' % ai)
+                    ai += 1
+                    for _d in range(0 if k == 'arr' else int(k[2])):
+                        call.append('(nats.getD %d 0)' % ni)
+                        ni += 1
+                elif k == 'flt':
+                    call.append('(sc.getD %d 0)' % si)
+                    si += 1
+                else:
+                    call.append('(nats.getD %d 0)' % ni)
+                    ni += 1
+            nres = len(t['outs']) + (1 if t['ret_kind'] else 0)
+            parts = []
+            for j in range(nres):
+                pj = proj('r', j, nres)
+                if j < len(t['outs']):
+                    parts.append(pj)
+                elif t['ret_kind'] == 'flt':
+                    parts.append('#[%s]' % pj)
+                else:
+                    parts.append('#[Float.ofNat %s]' % pj)
+            irows.append('  ("%s.%s", fun arrs sc nats => let r := %s %s; [%s])' % (mod, t['name'], fn, ' '.join(call), ', '.join(parts)))
         out.append('end %s\n' % mod)
     out.append('\nend Pyx\nend MTfitVerif\n')
     ops.append(',\n'.join(rows))
     ops.append(']\n\n/-- array reductions: arrays, scalars, length -/\ndef pyxLoopTable : List (String × (List (List Float) → List Float → Nat → List Float)) := [')
     ops.append(',\n'.join(lrows))
+    ops.append(']\n\n/-- array kernels (nested loops): arrays, scalars, naturals (shapes and sizes in signature order) -/\ndef pyxImpTable : List (String × (List (Array Float) → List Float → List Nat → List (Array Float))) := [')
+    ops.append(',\n'.join(irows))
     ops.append(']\n\nend MTfitVerif.Driver\n')
     return ''.join(out), '\n'.join(ops)
 
